@@ -2,6 +2,7 @@ package main
 
 import (
 	"fmt"
+	"os"
 	"go/types"
 	"sort"
 	"strings"
@@ -23,6 +24,7 @@ type UnitResult struct {
 	initEv      []Event
 	reg         *SortReg
 	Trusted     bool
+	ct          *Contract
 }
 
 func (g *Gen) newUnitGen(unit string, fn *ssa.Function, ct *Contract) *UnitGen {
@@ -30,7 +32,7 @@ func (g *Gen) newUnitGen(unit string, fn *ssa.Function, ct *Contract) *UnitGen {
 		init: map[string]Term{}, varSort: map[string]Sort{}, fresh: map[string]int{}, obCtr: map[string]int{},
 		assumed: map[string]string{}, localTypes: map[string]types.Type{}, nonNil: map[string]bool{},
 		closureAt: map[string]*Closure{}, edgeGuard: map[edgeKey]Term{}, inlined: map[string]bool{},
-		callCtr: map[string]int{}, dropped: map[string]bool{}, fresh0: map[string]bool{}, regionCache: map[string]string{}}
+		callCtr: map[string]int{}, dropped: map[string]bool{}, fresh0: map[string]bool{}, regionCache: map[string]string{}, assertDone: map[string]bool{}, assertCtr: map[string]int{}, keyType: map[string]types.Type{}, mapKeyType: map[string]types.Type{}, quantified: g.contractQuantifies(ct)}
 }
 
 // shortUnit turns github.com/openconfig/gribigo/server.isNewMaster into server.isNewMaster.
@@ -43,10 +45,18 @@ func shortUnit(key string) string {
 }
 
 // VerifyUnit generates all obligations of one function under contract.
-func (g *Gen) VerifyUnit(ct *Contract) (res *UnitResult) {
+func (g *Gen) VerifyUnit(ct *Contract, inst *ssa.Function) (res *UnitResult) {
 	key := ct.Key()
 	res = &UnitResult{Unit: shortUnit(key), Func: key, reg: g.reg}
 	fn := g.findFunc(ct.Pkg, ct.Func)
+	if inst != nil {
+		fn = inst
+		var targs []string
+		for _, t := range inst.TypeArgs() {
+			targs = append(targs, shortTypeName(t))
+		}
+		res.Unit += "[" + strings.Join(targs, ",") + "]"
+	}
 	if fn == nil {
 		res.Unsupported = "contract target " + key + " not found in the package (renamed or deleted?)"
 		return res
@@ -54,6 +64,9 @@ func (g *Gen) VerifyUnit(ct *Contract) (res *UnitResult) {
 	if ct.Trusted {
 		res.Trusted = true
 		return res
+	}
+	for i := range ct.Asserts {
+		ct.Asserts[i].Hits = 0
 	}
 	u := g.newUnitGen(res.Unit, fn, ct)
 	defer func() {
@@ -259,15 +272,58 @@ func (u *UnitGen) run() {
 		cv.Result, cv.Backend = "", ""
 		cv.Goal = final.reach
 	}
+	// postconditions are checked exit by exit (the obligation is one, its goal has one part per
+	// return): each part is a much smaller query than the merged exit state
+	var exitEnvs []*Env
+	if os.Getenv("GOVC_EXITS") != "" {
+		for i, e := range exits {
+			fmt.Fprintf(os.Stderr, "%s exit %d: %s\n", u.unit, i+1, e.pos)
+		}
+	}
+	if len(exits) > 1 {
+		for _, e := range exits {
+			pe := &Env{u: u, vars: map[string]Val{}, cur: e.st, old: entry, pkgPath: u.contract.Pkg}
+			for k, v := range env.vars {
+				pe.vars[k] = v
+			}
+			for i := 0; i < n; i++ {
+				rt := fn.Signature.Results().At(i).Type()
+				pe.vars[fmt.Sprintf("result%d", i)] = Val{T: e.results[i], Ty: rt}
+				if i == 0 {
+					pe.vars["result"] = Val{T: e.results[i], Ty: rt}
+				}
+			}
+			exitEnvs = append(exitEnvs, pe)
+		}
+	}
 	for i, c := range u.contract.Ensures {
 		lbl := c.Label
 		if lbl == "" {
 			lbl = fmt.Sprint(i + 1)
 		}
-		u.oblige(final, "ensures", "ensures#"+lbl, c.Text, post.evalBool(c.E))
+		if len(exitEnvs) == 0 {
+			u.oblige(final, "ensures", "ensures#"+lbl, c.Text, post.evalBool(c.E))
+			continue
+		}
+		var parts []Term
+		for j, pe := range exitEnvs {
+			parts = append(parts, Implies(exits[j].st.reach, pe.evalBool(c.E)))
+		}
+		ob := u.oblige(&State{reach: TTrue}, "ensures", "ensures#"+lbl, c.Text, And(parts...))
+		if ob != nil && ob.Result == "" {
+			ob.Parts = parts
+			for _, e := range exits {
+				ob.PartPos = append(ob.PartPos, e.pos)
+			}
+		}
 	}
 	u.frameObligations(entry, final, env)
 	u.lockBalance(entry, final, env)
+	for _, a := range u.contract.Asserts {
+		if a.Hits == 0 {
+			unsup("assert anchor %q matches no executed source line of the function (code moved?)", a.Anchor)
+		}
+	}
 }
 
 // frameObligations proves that nothing outside the assigns clause changed.
@@ -344,41 +400,44 @@ func (u *UnitGen) frameObligations(entry, final *State, env *Env) {
 		}
 		r := u.havoc("fr_r", keySort(so))
 		var excl []Term
-		partial := map[string][]Term{}
-		var partialRefs []Term
+		var partialEx []Term
+		hasPartial := false
+		for _, l := range mine {
+			if l.sub != nil {
+				hasPartial = true
+			}
+		}
+		var kk Term
+		if hasPartial {
+			kk = u.havoc("fr_k", keySort(elemSort(so)))
+		}
 		for _, l := range mine {
 			if l.sub == nil {
 				excl = append(excl, Not(Eq(r, *l.ref)))
 			} else {
-				if _, ok := partial[l.ref.S]; !ok {
-					partialRefs = append(partialRefs, *l.ref)
-				}
-				partial[l.ref.S] = append(partial[l.ref.S], *l.sub)
+				partialEx = append(partialEx, And(Eq(r, *l.ref), Eq(kk, *l.sub)))
 			}
 		}
 		same := Eq(Select(fin, r), Select(ini, r))
 		if pfx == "MV:" {
 			// map values matter only at keys present in the final domain
 			dk := "MD:" + k[3:]
-			if dfin, ok := final.vars[dk]; ok || true {
-				if !ok {
-					dfin = u.get(final, dk, ArraySort(SInt, ArraySort(keySort(elemSort(so)), SBool)))
-				}
-				kk := u.havoc("fr_mk", keySort(elemSort(so)))
-				same = Implies(Select(Select(dfin, r), kk), Eq(Select(Select(fin, r), kk), Select(Select(ini, r), kk)))
+			dfin, ok := final.vars[dk]
+			if !ok {
+				dfin = u.get(final, dk, ArraySort(SInt, ArraySort(keySort(elemSort(so)), SBool)))
 			}
-		}
-		body := same
-		for _, pr := range partialRefs {
-			inner := elemSort(so)
-			kk := u.havoc("fr_k", keySort(inner))
-			var ne []Term
-			for _, s := range partial[pr.S] {
-				ne = append(ne, Not(Eq(kk, s)))
+			if !hasPartial {
+				kk = u.havoc("fr_mk", keySort(elemSort(so)))
 			}
-			part := Implies(And(ne...), Eq(Select(Select(fin, r), kk), Select(Select(ini, r), kk)))
-			body = Ite(Eq(r, pr), part, body)
+			same = Implies(Select(Select(dfin, r), kk), Eq(Select(Select(fin, r), kk), Select(Select(ini, r), kk)))
+		} else if hasPartial {
+			same = Eq(Select(Select(fin, r), kk), Select(Select(ini, r), kk))
 		}
+		if kt, ok := u.mapKeyType[k]; ok && kk.S != "" {
+			// only keys that are values of the map's key type exist
+			same = Implies(u.typeFacts(final, kk, kt), same)
+		}
+		body := Or(append(partialEx, same)...)
 		guard := And(append([]Term{App(SBool, "<", IntN(0), r), App(SBool, "<", r, u.top0)}, excl...)...)
 		if keySort(so) != SInt {
 			guard = And(excl...)
@@ -417,7 +476,8 @@ func (u *UnitGen) lockBalance(entry, final *State, env *Env) {
 			continue
 		}
 		r := u.havoc("lk_r", SInt)
-		u.oblige(final, "lock", "lock:balance("+strings.TrimPrefix(k, "LK:")+")", "the function returns holding exactly the locks it entered with", Eq(Select(fin, r), Select(ini, r)))
+		u.oblige(final, "lock", "lock:balance("+strings.TrimPrefix(k, "LK:")+")", "the function returns holding exactly the locks it entered with",
+			Implies(And(App(SBool, "<", IntN(0), r), App(SBool, "<", r, u.top(final))), Eq(Select(fin, r), Select(ini, r))))
 	}
 }
 
@@ -461,7 +521,7 @@ func (r *UnitResult) QueryFor(ob *Obligation, withModel bool) string {
 	for i := 0; i < ob.Index; i++ {
 		e := r.events[i]
 		if e.Kind == EvOblig {
-			if !e.Ob.Cover {
+			if !e.Ob.Cover && !terminalKind(e.Ob.Kind) {
 				fmt.Fprintf(&b, "(assert %s) ; assumed after %s\n", e.Ob.Goal.S, e.Ob.Name)
 			}
 			continue
@@ -473,7 +533,11 @@ func (r *UnitResult) QueryFor(ob *Obligation, withModel bool) string {
 		fmt.Fprintf(&b, "(assert %s)\n(check-sat)\n", ob.Goal.S)
 		return b.String()
 	}
-	fmt.Fprintf(&b, "(assert (not %s))\n(check-sat)\n", ob.Goal.S)
+	goal := ob.Goal
+	if len(ob.Parts) > 0 && ob.FailPart >= 0 && ob.FailPart < len(ob.Parts) {
+		goal = ob.Parts[ob.FailPart]
+	}
+	fmt.Fprintf(&b, "(assert (not %s))\n(check-sat)\n", goal.S)
 	if withModel {
 		var ts []string
 		for _, in := range ob.Inputs {
@@ -504,6 +568,14 @@ func (r *UnitResult) IncrementalScript() (string, []*Obligation) {
 			}
 			if ob.Cover {
 				fmt.Fprintf(&b, "(push 1)\n(assert %s)\n(check-sat)\n(pop 1)\n", ob.Goal.S)
+			} else if len(ob.Parts) > 0 {
+				for _, p := range ob.Parts {
+					fmt.Fprintf(&b, "(push 1)\n(assert (not %s))\n(check-sat)\n(pop 1)\n", p.S)
+				}
+			} else if terminalKind(ob.Kind) {
+				// obligations at the end of a path (postconditions, frames, invariant preservation)
+				// are not needed as assumptions for anything that follows
+				fmt.Fprintf(&b, "(push 1)\n(assert (not %s))\n(check-sat)\n(pop 1)\n", ob.Goal.S)
 			} else {
 				fmt.Fprintf(&b, "(push 1)\n(assert (not %s))\n(check-sat)\n(pop 1)\n(assert %s)\n", ob.Goal.S, ob.Goal.S)
 			}
@@ -523,6 +595,11 @@ func (u *UnitGen) preRegister(fn *ssa.Function, env *Env, entry *State) {
 	for k := range u.g.reg.factSeen {
 		saved[k] = true
 	}
+	savedAx := map[string]bool{}
+	for k := range u.axiomDone {
+		savedAx[k] = true
+	}
+	defer func() { u.axiomDone = savedAx }()
 	pe := &Env{u: u, vars: map[string]Val{}, cur: entry.clone(), old: entry, pkgPath: u.contract.Pkg}
 	for k, v := range env.vars {
 		pe.vars[k] = v
@@ -545,4 +622,75 @@ func (u *UnitGen) preRegister(fn *ssa.Function, env *Env, entry *State) {
 	u.events = u.events[:nEv]
 	u.obs = u.obs[:nObs]
 	u.g.reg.factSeen = saved
+}
+
+// contractQuantifies reports whether a contract (with the predicates it uses) contains a quantifier.
+func (g *Gen) contractQuantifies(ct *Contract) bool {
+	seen := map[string]bool{}
+	var walk func(e Expr) bool
+	walk = func(e Expr) bool {
+		switch x := e.(type) {
+		case *EQuant:
+			return true
+		case *EOld:
+			return walk(x.X)
+		case *EUnary:
+			return walk(x.X)
+		case *EBinary:
+			return walk(x.X) || walk(x.Y)
+		case *ESel:
+			return walk(x.X)
+		case *EIndex:
+			return walk(x.X) || walk(x.I)
+		case *ETypeIs:
+			return walk(x.X)
+		case *ECall:
+			for _, a := range x.Args {
+				if walk(a) {
+					return true
+				}
+			}
+			if id, ok := x.Fun.(*EIdent); ok {
+				if p, ok := g.specs.Preds[id.Name]; ok && !seen[id.Name] {
+					seen[id.Name] = true
+					return walk(p.Body)
+				}
+			}
+			if sel, ok := x.Fun.(*ESel); ok {
+				return walk(sel.X)
+			}
+		}
+		return false
+	}
+	for _, c := range ct.Requires {
+		if walk(c.E) {
+			return true
+		}
+	}
+	for _, c := range ct.Ensures {
+		if walk(c.E) {
+			return true
+		}
+	}
+	for _, l := range ct.Loops {
+		for _, c := range l.Invs {
+			if walk(c.E) {
+				return true
+			}
+		}
+	}
+	for _, a := range ct.Asserts {
+		if walk(a.E) {
+			return true
+		}
+	}
+	return false
+}
+
+func terminalKind(k string) bool {
+	switch k {
+	case "ensures", "frame":
+		return true
+	}
+	return strings.HasPrefix(k, "inv-pres")
 }
